@@ -38,6 +38,10 @@ type vpBMEnv struct {
 	// ftAboveBt is set as soon as the filter store is observed above the block store
 	ftAboveBt bool
 	mutations int
+	// quitOnDisconnect: the client is being shut down while a rollback is in
+	// progress - when the first disconnected event arrives the quit channel is
+	// closed and nobody listens for events any more
+	quitOnDisconnect bool
 }
 
 const vpBaseTime = 1296688602
@@ -162,6 +166,11 @@ func vpNewBMEnvOpt(n, bt, ft int, params chaincfg.Params, opt vpEnvOpt) *vpBMEnv
 			case n := <-bm.blockNtfnChan:
 				_, best, _ := bm.NotificationsSinceHeight(0)
 				e.events = append(e.events, vpEvent{ntfn: n, bt: len(e.bs.hdrs) - 1, ft: len(e.fs.hashes) - 1, best: int(best)})
+				if _, isDisc := n.(*blockntfns.Disconnected); isDisc && e.quitOnDisconnect {
+					vpReach("shutdown-requested-during-a-rollback")
+					close(bm.quit)
+					return
+				}
 			case <-bm.quit:
 				return
 			}
